@@ -92,8 +92,12 @@ def json_numpy_or_set_obj_hook(
     """
     if isinstance(dct, dict) and '_is_numpy_array' in dct:
         if dct['_is_numpy_array'] is True:
-            data = dct['data']
-            return np.array(data)
+            # Use the saved dtype and shape: without them an empty dimension
+            # is lost and e.g. an uint64 array can come back as float
+            data = np.array(dct['data'], dtype=dct.get('dtype'))
+            if 'shape' in dct:
+                data = data.reshape(dct['shape'])
+            return data
 
         raise ValueError(  # pragma: no cover
             'Json representation contains the "_is_numpy_array" key '
